@@ -92,6 +92,9 @@ class JobResult:
             self.inconclusive.append({"label": label, "detail": outcome.detail})
             return False
         # candidate counterexample -> replay on the unproxied code
+        if len(self.violations) >= 5:
+            self.extra_cex = getattr(self, "extra_cex", 0) + 1  # further failing obligations of this job: counted, not replayed
+            return False
         if replay is None:
             self.harness_errors.append({"label": label, "detail": "counterexample without replay function"})
             return False
@@ -206,6 +209,9 @@ def finish(pid, results, *, explanation, bound, symbolic, assumptions, source_fi
     lines = []
     seen_known = set()
     for i, v in enumerate(violations):
+        if len(new_violations) >= 25 and v["key"] not in known:
+            new_violations.append(v)
+            continue
         if v["key"] in known:
             if v["key"] not in seen_known:
                 seen_known.add(v["key"])
@@ -252,6 +258,7 @@ def finish(pid, results, *, explanation, bound, symbolic, assumptions, source_fi
         "harness_errors": herr[:20],
         "outside_claim_this_run": oor[:40],
         "known_findings_reported": sorted(seen_known),
+        "further_failing_obligations_not_replayed": sum(getattr(r, "extra_cex", 0) for r in results),
         "source_hash": repo_hash(source_files),
         "notes": notes[:20],
         "exit_status": status,
